@@ -33,6 +33,7 @@ func (s c13Store) ListObjects(ctx context.Context, prefix string) ([]storage.Obj
 var c13Pool = []string{
 	"db/cpu/2024/01/01/00/a.parquet",
 	"db2/mem/2024/01/01/b.parquet",
+	"prod/data/2024/01/01/00/c.parquet", // a measurement called data: the path repeats the backup layout's own segment name
 	"wh/db/t/metadata/v1.metadata.json", // Iceberg warehouse metadata (not parquet)
 	"db/cpu/notes.txt",                  // neither: not part of a backup
 }
